@@ -204,3 +204,59 @@ func LastResult(ret *ssa.Return) ssa.Value {
 	}
 	return ResultOf(ret, len(ret.Results)-1)
 }
+
+// LoopBody returns the natural loop of header h (nil if h is not a loop header).
+func LoopBody(h *ssa.BasicBlock) map[*ssa.BasicBlock]bool {
+	body := map[*ssa.BasicBlock]bool{}
+	var work []*ssa.BasicBlock
+	for _, p := range h.Preds {
+		if h.Dominates(p) {
+			work = append(work, p)
+		}
+	}
+	if len(work) == 0 {
+		return nil
+	}
+	body[h] = true
+	for len(work) > 0 {
+		b := work[0]
+		work = work[1:]
+		if body[b] {
+			continue
+		}
+		body[b] = true
+		work = append(work, b.Preds...)
+	}
+	return body
+}
+
+// RangeLoopsOver finds the `for … range S` loops of fn whose ranged value satisfies pred:
+// returns the loop headers.  (Pattern: header compares idx+1 < len(S).)
+func RangeLoopsOver(fn *ssa.Function, pred func(s ssa.Value) bool) []*ssa.BasicBlock {
+	var out []*ssa.BasicBlock
+	for _, b := range fn.Blocks {
+		iff := IfOf(b)
+		if iff == nil {
+			continue
+		}
+		cmp, ok := iff.Cond.(*ssa.BinOp)
+		if !ok || cmp.Op != token.LSS {
+			continue
+		}
+		call, ok := cmp.Y.(*ssa.Call)
+		if !ok {
+			continue
+		}
+		bi, ok := call.Call.Value.(*ssa.Builtin)
+		if !ok || bi.Name() != "len" {
+			continue
+		}
+		if LoopBody(b) == nil {
+			continue
+		}
+		if pred(call.Call.Args[0]) {
+			out = append(out, b)
+		}
+	}
+	return out
+}
